@@ -322,7 +322,12 @@ Proof.
   - intros t2 th2 H2. apply nth_upd in H2 as [(-> & -> & _)|(Hne & H2)].
     + exists c'. rewrite Hcl. split.
       * apply nth_upd_eq. eapply nth_some_lt; eauto.
-      * eapply step_at_tinv; eauto using ci_mem, ci_nonneg, inv_cfg, inv_cache, ci_done.
+      * refine (step_at_tinv _ _ _ _ _ _ _ _ _ _ _ _ Hti _ _ _ _ _ Hsrv Hs).
+        -- apply (ci_mem _ _ _ _ Hci).
+        -- apply (ci_nonneg _ _ _ _ Hci).
+        -- apply (inv_cfg _ HI).
+        -- apply (ci_done _ _ _ _ Hci).
+        -- apply (inv_cache _ HI).
     + destruct (inv_threads s HI t2 th2 H2) as (c2 & Hc2 & Hti2).
       destruct (step_at_cext t2 _ _ _ _ _ _ _ _ _ _ _ _ Hne Hti Hs) as (Hext & Hmono).
       destruct (Nat.eq_dec (t_cl th2) (t_cl th)) as [E|E].
